@@ -1,10 +1,10 @@
 (* Correspondence evaluator for xlist: runs the model on a recorded operation list and compares with
    the observations the harness recorded on the real list after every operation.  Evaluated by
-   vm_compute from generated files; no proofs, depends on Model only.
+   vm_compute from generated files; no proofs, depends on Model and Spec only.
 
    Generated files open Z_scope (through Common.Base): handles must be written [3%nat], or built with
    the Z-taking helpers [zop_*] / [zobs] below. *)
-From Juniper Require Import Common.Base XList.Model.
+From Juniper Require Import Common.Base XList.Model XList.Spec.
 
 Fixpoint nats_eqb (a b : list nat) : bool :=
   match a, b with
@@ -40,6 +40,10 @@ Fixpoint obss_eqb (a b : list obs) : bool :=
 (* a case = operations and the implementation's observation after each of them *)
 Definition check_M (c : list op * list obs) : bool := obss_eqb (run (fst c)) (snd c).
 
+(* layer S: on histories that respect the precondition the ideal sequence predicts the same trace *)
+Definition check_S (c : list op * list obs) : bool :=
+  if valid_ops (fst c) then obss_eqb (srun (fst c)) (snd c) else true.
+
 (* helpers for generated files: handles given as Z literals *)
 Definition zobs (panic : bool) (fwd bwd : list Z) (len : Z) (vals : list Z) (fp bn iso : bool) : obs :=
   mkObs panic (map Z.to_nat fwd) (map Z.to_nat bwd) len vals fp bn iso.
@@ -67,8 +71,7 @@ Definition zMoveToBack (n : Z) := LMoveToBack (Z.to_nat n).
      MoveToFront 4      -> [4]
      Remove 4           -> []
      PushFront 60       -> [5] *)
-Example check_M_hand_trace :
-  check_M
+Definition hand_case : list op * list obs :=
     ([ LPushBack 10; LPushFront 20; zInsertAfter 30 1; zInsertBefore 40 1;
        zMoveBefore 0 3; zMoveAfter 3 2; zMoveAfter 1 1; zMoveToFront 2; zMoveToBack 2;
        zRemove 1; LClear; LPushBack 50; zMoveToFront 4; zRemove 4; LPushFront 60 ],
@@ -86,7 +89,12 @@ Example check_M_hand_trace :
        zobs false [4] [4] 1 [50] true true true;
        zobs false [4] [4] 1 [50] true true true;
        zobs false [] [] 0 [] true true true;
-       zobs false [5] [5] 1 [60] true true true ]) = true.
+       zobs false [5] [5] 1 [60] true true true ]).
+
+Example check_M_hand_trace : check_M hand_case = true.
+Proof. vm_compute. reflexivity. Qed.
+
+Example check_S_hand_trace : check_S hand_case = true.
 Proof. vm_compute. reflexivity. Qed.
 
 (* the evaluator does reject a wrong trace (a walk that is not the mirror image) *)
